@@ -99,4 +99,7 @@ def templates(cfg):
     from . import temporal
 
     out += temporal.templates_for("C06", cfg)
+    from . import gen
+
+    out += gen.templates_for("C06", cfg)  # compositions drawn from the typed pipeline grammar (pv/corpora/gen.py)
     return out
